@@ -741,6 +741,14 @@ def r8(ctx):
     ctx.floor("C11.R8", 4)
 
 
+def r9(ctx):
+    """"a report of news that is refused because a session is running leads to exactly one follow-up dial when that session
+    finishes": LiveActor::on_sync_finished evaluated on session result x what finish() answers x subscribers present x content
+    pending - the follow-up dial happens exactly when finish() hands the resync flag over, on every cell"""
+    from . import livefw
+    livefw.check_sync_finished(ctx, "C11.R9", "follow-up")
+    ctx.floor("C11.R9", 24)
+
 def run(ctx):
     ctx.run_rule("C11.R1", r1)
     ctx.run_rule("C11.R2", r2)
@@ -750,3 +758,4 @@ def run(ctx):
     ctx.run_rule("C11.R6", r6)
     ctx.run_rule("C11.R7", r7)
     ctx.run_rule("C11.R8", r8)
+    ctx.run_rule("C11.R9", r9)
